@@ -1227,18 +1227,18 @@ function resolve_join_variables(input_variables_map, join_variables_map, variabl
             [join_var_1, join_var_2] = [join_var_2, join_var_1];
 
         let [lhs_key_index, rhs_key_index] = [null, null];
-        if (['NR', 'a.NR', 'aNR'].indexOf(join_var_1) != -1) {
-            lhs_key_index = -1;
-        } else if (input_variables_map.hasOwnProperty(join_var_1)) {
+        if (input_variables_map.hasOwnProperty(join_var_1)) {
             lhs_key_index = input_variables_map[join_var_1].index;
+        } else if (['NR', 'a.NR', 'aNR'].indexOf(join_var_1) != -1) {
+            lhs_key_index = -1;
         } else {
             throw new RbqlParsingError(`Unable to parse JOIN expression: Input table does not have field "${join_var_1}"\n${valid_join_syntax_msg}`);
         }
 
-        if (['b.NR', 'bNR'].indexOf(join_var_2) != -1) {
-            rhs_key_index = -1;
-        } else if (join_variables_map.hasOwnProperty(join_var_2)) {
+        if (join_variables_map.hasOwnProperty(join_var_2)) {
             rhs_key_index = join_variables_map[join_var_2].index;
+        } else if (['b.NR', 'bNR'].indexOf(join_var_2) != -1) {
+            rhs_key_index = -1;
         } else {
             throw new RbqlParsingError(`Unable to parse JOIN expression: Join table does not have field "${join_var_2}"\n${valid_join_syntax_msg}`);
         }
